@@ -222,7 +222,9 @@ func spellings(cn string) []string {
 
 var labelPool = []string{"a", "b", "ab", "bb", "a-b", "a_b", "1"}
 
-func namesUpTo(maxLabels int) []nameCase {
+// namesUpTo: every name of 1..maxLabels labels over labelPool. Names of at most fullSpell labels are queried
+// in all spellings, longer ones in two (lower case without dot, mixed case with dot).
+func namesUpTo(maxLabels, fullSpell int) []nameCase {
 	var out []nameCase
 	seen := map[string]bool{}
 	var rec func(prefix string, depth int)
@@ -235,7 +237,11 @@ func namesUpTo(maxLabels int) []nameCase {
 			if depth == 1 {
 				if !seen[n] {
 					seen[n] = true
-					out = append(out, nameCase{canon: n, forms: spellings(n)})
+					if strings.Count(n, ".")+1 <= fullSpell {
+						out = append(out, nameCase{canon: n, forms: spellings(n)})
+					} else {
+						out = append(out, nameCase{canon: n, forms: []string{n, alternating(n, 0) + "."}})
+					}
 				}
 				continue
 			}
@@ -475,14 +481,14 @@ func main() {
 	}
 	r.Set("K", K)
 	r.Set("name_labels_max", L)
-	r.Rule(fmt.Sprintf("single: every subset of size<=%d of an 18-pattern closed pool (full/suffix/leading-dot suffix/keyword/regex, mutual prefixes and suffixes, shared labels, digits, '_' and '-', one out-of-alphabet pattern) x bit index in {0,31,32,1023} x every name of <=%d labels over {a,b,ab,bb,a-b,a_b,1} in 4 letter-case spellings x with/without trailing dot; multi: every ordered pair of subsets of size<=2 and every triple of singletons at distinct indices (quick: one index assignment and 2 spellings per name; thorough: 4 resp. 2 index assignments, all spellings); allidx: 4 sets rotated over all 1024 indices and one matcher with all 1024 indices populated; badchar: 10 out-of-alphabet bytes x 3 positions x {full,suffix,keyword} alone and beside every pool pattern; scale: %d generated patterns in one matcher, every pattern, its sub-/non-sub-names and every name within edit distance 1 of %d evenly spaced bases; trie: every key set of size<=%d over {x,y}^<=4 for 3 two-letter alphabets x every word of length<=6; bitlist: unit widths 1..31. A case is (configuration, canonical name) resp. (key set, word); distinct_nontrivial counts cases of pairwise distinct configurations (checked by a map over configuration keys) x pairwise distinct names (de-duplicated at generation), evaluations counts every spelling queried", K, L, scaleN, scaleBases, trieK))
+	r.Rule(fmt.Sprintf("single: every subset of size<=%d of an 18-pattern closed pool (full/suffix/leading-dot suffix/keyword/regex, mutual prefixes and suffixes, shared labels, digits, '_' and '-', one out-of-alphabet pattern) x bit index in {0,31,32,1023} x every name of <=%d labels over {a,b,ab,bb,a-b,a_b,1} in 4 letter-case spellings x with/without trailing dot (names of 4 labels: lower case without dot and mixed case with dot only); multi: every ordered pair of subsets of size<=2 and every triple of singletons at distinct indices (names of <=3 labels; quick: one index assignment, 2 spellings per name; thorough: 4 resp. 2 index assignments, all spellings for <=2 labels and 2 spellings for 3 labels); allidx: 4 sets rotated over all 1024 indices and one matcher with all 1024 indices populated; badchar: 10 out-of-alphabet bytes x 3 positions x {full,suffix,keyword} alone and beside every pool pattern; scale: %d generated patterns in one matcher, every pattern, its sub-/non-sub-names and every name within edit distance 1 of %d evenly spaced bases; trie: every key set of size<=%d over {x,y}^<=4 for 3 two-letter alphabets x every word of length<=6; bitlist: unit widths 1..31. A case is (configuration, canonical name) resp. (key set, word); distinct_nontrivial counts cases of pairwise distinct configurations (checked by a map over configuration keys) x pairwise distinct names (de-duplicated at generation), evaluations counts every spelling queried", K, L, scaleN, scaleBases, trieK))
 
-	names := namesUpTo(L)
+	names := namesUpTo(L, 3)
 	names3 := names
 	if L > 3 {
-		names3 = namesUpTo(3)
+		names3 = namesUpTo(3, 3)
 	}
-	names2 := namesUpTo(2)
+	names2 := namesUpTo(2, 2)
 	nforms := 0
 	for _, n := range names {
 		nforms += len(n.forms)
@@ -543,14 +549,10 @@ func main() {
 	legScale(h, scaleN, scaleBases)
 	h.lap("scale")
 
-	// ---- leg multi (independence of sets). quick: two spellings per name (lower case without dot, mixed
-	// case with dot); thorough: all spellings and all four index pairs.
-	namesM := names3
-	if !r.Thorough() {
-		namesM = make([]nameCase, len(names3))
-		for i, n := range names3 {
-			namesM[i] = nameCase{canon: n.canon, forms: []string{n.canon, alternating(n.canon, 0) + "."}}
-		}
+	// ---- leg multi (independence of sets)
+	namesM := namesUpTo(3, 0)
+	if r.Thorough() {
+		namesM = namesUpTo(3, 2)
 	}
 	idxTriples := [][3]int{{0, 31, 32}, {1023, 32, 31}}
 	perTriple := 1
